@@ -113,6 +113,7 @@ func OrderedMap.ForEach
   requires unlocked(o.mutex)
   callback consumer(k, v) (cont)
     opt nolocks
+    modifies Element.next, Element.prev, Element.value          -- arbitrary code: it may change the map, also remove the elements around the current one
   modifies everything
   ghost local prev Int        -- the element consumed last (ghost; 0: none yet)
   ghost at entry: prev = 0
@@ -124,6 +125,7 @@ func OrderedMap.ForEachReverse
   requires unlocked(o.mutex)
   callback consumer(k, v) (cont)
     opt nolocks
+    modifies Element.next, Element.prev, Element.value          -- arbitrary code: it may change the map, also remove the elements around the current one
   modifies everything
   ghost local prev Int
   ghost at entry: prev = 0
